@@ -493,6 +493,27 @@ fn duplicate_names_case(u: &mut Choices, sz: Size) -> CaseResult {
     }
     let doc_text = doc.to_json();
     let mut evals = 0;
+    // the console table against the evaluation record, set by set. Recorded finding F42 is exactly
+    // this: a name with a PASS or FAIL definition is dropped from the table's SKIP list. Anything
+    // else (a FAIL definition missing from the FAILED list, ..) is not that finding.
+    evals += 1;
+    if let (Verdict::Ok { rules: rs, .. }, _) = verdict(&doc_text, &text) {
+        let set = |st: St| -> BTreeSet<String> { rs.iter().filter(|(_, s)| *s == st).map(|(n, _)| last_seg(n)).collect() };
+        let (rp, rf, rsk) = (set(St::Pass), set(St::Fail), set(St::Skip));
+        evals += 1;
+        let t = validate_payload(&[text.clone()], &[doc_text.clone()], &[], &VOpts::plain(Fmt::Single, vec![Show::All]));
+        if let Ok(o) = parse_table(&strip_ansi(&t.out), &[Show::All]) {
+            let (tp, tf, tsk) = (o.pass.clone().unwrap_or_default(), o.fail.clone().unwrap_or_default(), o.skip.clone().unwrap_or_default());
+            let f42: BTreeSet<String> = rsk.iter().filter(|n| !rp.contains(*n) && !rf.contains(*n)).cloned().collect();
+            if tp != rp || tf != rf || (tsk != rsk && tsk != f42) {
+                return CaseResult::Fail(Failure {
+                    msg: format!("rule name {} defined twice: console table PASS {:?} FAIL {:?} SKIP {:?}, evaluation record PASS {:?} FAIL {:?} SKIP {:?}", new, tp, tf, tsk, rp, rf, rsk),
+                    sig: "c07:duplicate-names:table-sets".into(),
+                    case: json!({"kind": "duplicate-names", "doc": doc_text, "rules": text}),
+                });
+            }
+        }
+    }
     let r = check_all(&doc_text, &text, &mut evals).map_err(|(m, sg)| (format!("rule name {} defined twice: {}", new, m), format!("c07:duplicate-names:{}", sg.trim_start_matches("c07:"))));
     finish(doc_text, text, r, evals, vec!["duplicate-rule-name".into()])
 }
